@@ -57,6 +57,14 @@ BUDGET = {
 }
 
 
+class Hang(Exception):
+    """a step of the real code did not return within a minute of real time (the simulated clock is paused)"""
+    def __init__(self, replay, where):
+        super().__init__(where)
+        self.replay = replay
+        self.where = where
+
+
 def gen_shard(args):
     workdir, profile, shard, runs, steps, seed = args
     out = os.path.join(workdir, f"{profile}-{shard}.ndjson")
@@ -71,6 +79,8 @@ def gen_shard(args):
          "--steps", str(steps), "--first-run", str(shard * runs), "--out", out, "--choices-dir", cdir],
         env=env, stdout=subprocess.PIPE, stderr=subprocess.PIPE, text=True, timeout=1800)
     shutil.rmtree(tmp, ignore_errors=True)
+    if p.returncode == 3 and os.path.exists(out + ".hang"):
+        raise Hang(json.load(open(out + ".hang")), f"{profile}/{shard}")
     if p.returncode != 0:
         raise common.ToolError(f"harness failed on {profile}/{shard}: {p.stderr[-2000:]}")
     stats = json.loads(p.stderr.strip().splitlines()[-1])
@@ -160,6 +170,21 @@ def analyse(pid, shards, results):
 
 
 def run(pid, tier, seed):
+    try:
+        return run_inner(pid, tier, seed)
+    except Hang as h:
+        # "the server keeps serving afterwards" is part of C09; for the other properties the run cannot be judged
+        if pid != "C09":
+            raise common.ToolError(f"a step of the code under test does not return ({h.where}); see ./check C09")
+        last = h.replay["choices"][-1] if h.replay.get("choices") else {}
+        return {"level": "model_checking", "coverage": {"states": 0, "transitions": 0, "traces_validated_against_impl": 0, "samples": [h.replay["choices"][-10:]],
+                                                         "explanation": "exploration stopped: a step of the real code never returned"},
+                "violations": [{"formula": "C09_KeepsServing", "signature": f"C09_KeepsServing:step-does-not-return@{last.get('c')}",
+                                "replay": h.replay, "detail": f"{h.where} run {h.replay.get('run')} step {h.replay.get('i')} choice {json.dumps(last)}"}],
+                "assumptions": []}
+
+
+def run_inner(pid, tier, seed):
     common.build_harness()
     work = common.scratch()
     try:
